@@ -187,7 +187,30 @@ structure Cfg where
   /-- `PatchExpired` hands every selected treasure to `ReindexExpiration` (false: only those it did not
       patch, trusting `SaveFunction` to have re-filed the patched ones) -/
   patchExpiredReindexesAll : Bool
+  /-- a window bound that `time.Time.UnixNano` cannot represent (before 1677-09-21 / after 2262-04-11)
+      is recognised: a lower bound below / an upper bound above the range is dropped, a window that lies
+      wholly outside is empty (false: the bound is converted anyway and wraps around) -/
+  windowBoundsChecked : Bool
+  /-- a shift that finds, under the record guard, that a selected record is not wanted any more puts
+      it back into the indexes (`deleteHandlerIf`: `addTreasureToBeacons`) -/
+  claimLoserRefiled : Bool
   deriving DecidableEq, Repr
+
+def minInt64 : Int := -9223372036854775808
+def maxInt64 : Int := 9223372036854775807
+
+/-- what `UnixNano()` returns for an instant `x` nanoseconds from the epoch: int64 arithmetic wraps -/
+def wrap64 (x : Int) : Int := (x + 9223372036854775808) % 18446744073709551616 - 9223372036854775808
+
+/-- the window as the index code sees it: `none` = "nothing can be in it", else the two optional bounds
+    in int64 nanoseconds -/
+def effWindow (cfg : Cfg) (fromT toT : Option Int) : Option (Option Int × Option Int) :=
+  if cfg.windowBoundsChecked then
+    if (match fromT with | some f => decide (f > maxInt64) | none => false) ||
+       (match toT with | some t => decide (t < minInt64) | none => false) then none
+    else some ((match fromT with | some f => if f < minInt64 then none else some f | none => none),
+               (match toT with | some t => if t > maxInt64 then none else some t | none => none))
+  else some (fromT.map wrap64, toT.map wrap64)
 
 def test (c : Cmp) (x bound : Int) : Bool :=
   match c with
@@ -460,7 +483,7 @@ def mergeRec (cfg : Cfg) (old : Option Rec) (rq : SetReq) : Rec :=
   match old with
   | none =>
     { key := rq.key, ct := rq.ct, val := (if rq.ct == .void then 0 else rq.val),
-      created := rq.created, updated := rq.updated, expire := (if rq.clearExpire then 0 else rq.expire),
+      created := wrap64 rq.created, updated := wrap64 rq.updated, expire := (if rq.clearExpire then 0 else wrap64 rq.expire),
       expFlag := rq.expire != 0 || rq.clearExpire, contFlag := true }
   | some o =>
     -- `SetContentVoid` on an object that already has non-void content: replaces it, or (older code)
@@ -469,9 +492,9 @@ def mergeRec (cfg : Cfg) (old : Option Rec) (rq : SetReq) : Rec :=
     { key := o.key,
       ct := if keep then o.ct else rq.ct,
       val := if keep then o.val else (if rq.ct == .void then 0 else rq.val),
-      created := if rq.created != 0 then rq.created else o.created,
-      updated := if rq.updated != 0 then rq.updated else o.updated,
-      expire := if rq.clearExpire then 0 else if rq.expire != 0 then rq.expire else o.expire,
+      created := if rq.created != 0 then wrap64 rq.created else o.created,
+      updated := if rq.updated != 0 then wrap64 rq.updated else o.updated,
+      expire := if rq.clearExpire then 0 else if rq.expire != 0 then wrap64 rq.expire else o.expire,
       expFlag := (cfg.flagsSticky && o.expFlag) || rq.expire != 0 || rq.clearExpire,
       -- the setters raise `contentChanged` only when the value really differs
       contFlag := (cfg.flagsSticky && o.contFlag) ||
@@ -512,6 +535,11 @@ inductive Op where
   /-- `ShiftMatchingTreasures` without filters: index type, order, `HowMany = q.limit` (0: all),
       optional time window; `q.from_` is not used -/
   | shiftMatch (q : Query)
+  /-- `ShiftByKeys`: the named records, those that exist, are handed out and deleted -/
+  | shiftKeys (ks : List String)
+  /-- `PatchTreasures` with `CreateIfNotExist` (seed `{}`): a missing or void key becomes a body whose
+      counter is the increment; a body is patched; anything else is a type mismatch -/
+  | patchCreate (k : String) (m : ExpMeta)
   deriving Repr
 
 def setPair (p : Slot → Pair) (s : Slot) (v : Pair) : Slot → Pair :=
@@ -562,6 +590,16 @@ def stepBuild (cfg : Cfg) (st : St) (q : Query) : St :=
   let ps := phys cfg q.slot
   { st with pairs := setPair st.pairs ps ((st.pairs ps).build cfg q.slot st.store) }
 
+/-- `findIn…Beacon` → `GetManyFromOrderPosition` on the ordered slice `l` with effective limit `lim` -/
+def readList (cfg : Cfg) (q : Query) (l : List Rec) (lim : Nat) : List Rec :=
+  if q.slot.isTime then
+    (match effWindow cfg q.fromT q.toT with
+     | some (f, t) => getMany cfg l (ts q.slot) q.asc q.from_ lim f t
+     | none => [])
+  else
+    -- findInKeyBeacon / findInValueBeacon do not pass the time window on
+    getMany cfg l (ts q.slot) q.asc q.from_ lim none none
+
 /-- `GetTreasuresByBeacon` after the build: `none` = "Swamp does not exist" (no live record) -/
 def answer (cfg : Cfg) (st : St) (q : Query) : Option (List Rec) :=
   if st.store.isEmpty then none else
@@ -570,11 +608,7 @@ def answer (cfg : Cfg) (st : St) (q : Query) : Option (List Rec) :=
   let l := if q.asc then p.asc else p.desc
   -- `if limit == 0 { limit = int32(s.beaconKey.Count()) }`
   let lim := if q.limit = 0 then st.store.length else q.limit
-  if q.slot.isTime then
-    some (getMany cfg l (ts q.slot) q.asc q.from_ lim q.fromT q.toT)
-  else
-    -- findInKeyBeacon / findInValueBeacon do not pass the time window on
-    some (getMany cfg l (ts q.slot) q.asc q.from_ lim none none)
+  some (readList cfg q l lim)
 
 def expireAll : Query := { slot := .expire, asc := true, from_ := 0, limit := 0, fromT := none, toT := none }
 
@@ -597,6 +631,16 @@ def stepPatch (cfg : Cfg) (st : St) (k : String) (m : ExpMeta) : St :=
   match findKey k st.store with
   | none => st
   | some o => if o.ct == .bytes then stepSet cfg st (patchReq o m) else st
+
+def stepPatchCreate (cfg : Cfg) (st : St) (k : String) (m : ExpMeta) : St :=
+  let fresh : SetReq := { key := k, ct := .bytes, val := 1, created := 0, updated := 0,
+                          expire := (match m with | .setTo e => e | _ => 0), clearExpire := m == .clear }
+  match findKey k st.store with
+  | none => stepSet cfg st fresh
+  | some o =>
+    if o.ct == .bytes then stepSet cfg st (patchReq o m)
+    else if o.ct == .void then stepSet cfg st fresh
+    else st
 
 /-- `l` plus those records of `b` whose key `l` does not hold (`beacon.Add` of each) -/
 def addAll (l b : List Rec) : List Rec :=
@@ -646,17 +690,57 @@ def inTimeRange (x : Int) (fromT toT : Option Int) : Bool :=
   (match fromT with | some f => decide (x ≥ f) | none => true) &&
   (match toT with | some t => decide (x < t) | none => true)
 
+/-- the shift predicate's window over the index slice (time indexes only) -/
+def windowed (cfg : Cfg) (q : Query) (l : List Rec) : List Rec :=
+  if q.slot.isTime then
+    (match effWindow cfg q.fromT q.toT with
+     | some (f, t) => l.filter (fun r => inTimeRange (ts q.slot r) f t)
+     | none => [])
+  else l
+
 /-- what `CloneAndDeleteMatchingTreasures` returns: the first `limit` records (0: all) of the built
     index, in its order, that lie in the window (time indexes only) -/
 def matchList (cfg : Cfg) (st : St) (q : Query) : List Rec :=
   let p := (stepBuild cfg st q).pairs (phys cfg q.slot)
   let l := if q.asc then p.asc else p.desc
-  let m := if q.slot.isTime then l.filter (fun r => inTimeRange (ts q.slot r) q.fromT q.toT) else l
+  let m := windowed cfg q l
   if q.limit = 0 then m else m.take q.limit
 
 /-- …and deletes -/
 def stepShiftMatch (cfg : Cfg) (st : St) (q : Query) : St :=
   ((matchList cfg st q).map (·.key)).foldl stepDel (stepBuild cfg st q)
+
+/-! ### a shift whose selection pass and deletes are separated by another request
+
+    `CloneAndDeleteMatchingTreasures` selects under the beacon mutex (`ShiftMatching` takes the selected
+    records out of THAT beacon), then deletes each one under its record guard after asking the
+    predicate again.  Forced schedule: the shifter is held between the two (hook `shift.selected`). -/
+
+/-- the filter of the forced-schedule op: body counter `n >= v` (not indexable: evaluated whole, also
+    at the re-check) -/
+def claimPred (v : Int) (r : Rec) : Bool := r.ct == .bytes && decide (r.val ≥ v)
+
+/-- selection pass: build, take the first `limit` (0: all) matching records out of the walked slice -/
+def claimSelect (cfg : Cfg) (st : St) (q : Query) (v : Int) : St × List String :=
+  let st1 := stepBuild cfg st q
+  let ps := phys cfg q.slot
+  let p := st1.pairs ps
+  let l := if q.asc then p.asc else p.desc
+  let m := (windowed cfg q l).filter (claimPred v)
+  let keys := (if q.limit = 0 then m else m.take q.limit).map (·.key)
+  let p' := if q.asc then { p with asc := dropKeys keys p.asc } else { p with desc := dropKeys keys p.desc }
+  ({ st1 with pairs := setPair st1.pairs ps p' }, keys)
+
+/-- the deletes: a selected record that is gone is skipped; one that still matches is deleted and
+    handed out; one that does not is put back into the indexes — or (fact false) left where it is -/
+def claimRelease (cfg : Cfg) (st : St) (v : Int) (keys : List String) : St × List String :=
+  keys.foldl (fun (acc : St × List String) k =>
+    match findKey k acc.1.store with
+    | none => acc
+    | some r =>
+      if claimPred v r then (stepDel acc.1 k, acc.2 ++ [k])
+      else if cfg.claimLoserRefiled then ({ acc.1 with pairs := fun ps => (acc.1.pairs ps).insert cfg ps r }, acc.2)
+      else acc) (st, [])
 
 /-- Two first readers of a pair that is not built yet.  The first sits in `buildBeacon` between
     raising `initialized` on the ASC beacon and filling it; this is what the SECOND reader is
@@ -681,6 +765,8 @@ def step (cfg : Cfg) (st : St) : Op → St
   | .patch k m => stepPatch cfg st k m
   | .patchExpired m => stepPatchExpired cfg st m
   | .shiftMatch q => stepShiftMatch cfg st q
+  | .shiftKeys ks => ks.foldl stepDel st
+  | .patchCreate k m => stepPatchCreate cfg st k m
 
 def run (cfg : Cfg) (h : List Op) : St := h.foldl (step cfg) St.init
 
